@@ -80,7 +80,9 @@ Definition eff_topic (dflt cfg : N) : N := if cfg =? 0 then dflt else cfg.
 Section Codec.
   (** json.Marshal / json.Unmarshal on messageEnvelope, and what Marshal does to a Go string
       (invalid UTF-8 is replaced by U+FFFD; a []byte payload is base64 and survives) *)
-  Variable enc : envelope -> N.
+  Context {P : Type}.                    (* encoded envelopes: N in the theorems; the comparators
+                                            identify an encoding with what it decodes to *)
+  Variable enc : envelope -> P.
   Variable dec : N -> option envelope.
   Variable san : N -> N.
 
@@ -92,7 +94,7 @@ Section Codec.
   Definition san_msg (m : msg) : msg := Msg (san (uuid m)) (payload m) (option_map san_meta (mmeta m)).
 
   (** wrapMessageInEnvelope: the payload of the enveloping message (its UUID is library-made) *)
-  Definition wrap (t : N) (m : msg) : option N :=
+  Definition wrap (t : N) (m : msg) : option P :=
     if env_valid (mk_env t m) then Some (enc (mk_env t m)) else None.
 
   (** unwrapMessageFromEnvelope: Unmarshal error or empty destination topic => error *)
@@ -105,7 +107,7 @@ Section Codec.
   (** forwarder.Publisher.Publish(topic, ms...): every message is wrapped first, any failure
       aborts before the wrapped publisher is called; then ONE call on the forwarder topic.
       None = error without a call *)
-  Fixpoint wrap_all (t : N) (ms : list msg) : option (list N) :=
+  Fixpoint wrap_all (t : N) (ms : list msg) : option (list P) :=
     match ms with
     | [] => Some []
     | m :: ms' =>
@@ -114,7 +116,7 @@ Section Codec.
         | Some p => match wrap_all t ms' with None => None | Some ps => Some (p :: ps) end
         end
     end.
-  Definition fpub_publish (dflt cfg_topic : N) (t : N) (ms : list msg) : option (N * list N) :=
+  Definition fpub_publish (dflt cfg_topic : N) (t : N) (ms : list msg) : option (N * list P) :=
     match wrap_all t ms with
     | None => None
     | Some ps => Some (eff_topic dflt cfg_topic, ps)
@@ -177,6 +179,20 @@ Definition fanin_validate (sources : list N) (target : N) : bool :=
   && forallb (fun s => negb (s =? 0)) sources
   && negb (target =? 0)
   && forallb (fun s => negb (s =? target)) sources.
+
+(** NewFanIn: config error, or a panic from Router.AddHandler when two source topics give the
+    same handler name (Validate does not look for duplicates) *)
+Inductive ctor_res := NewOk | NewErr | NewPanic.
+Fixpoint nodupb (l : list N) : bool :=
+  match l with [] => true | x :: l' => negb (existsb (N.eqb x) l') && nodupb l' end.
+Definition fanin_new (has_sub has_pub : bool) (sources : list N) (target : N) : ctor_res :=
+  if negb (has_sub && has_pub) then NewErr
+  else if negb (fanin_validate sources target) then NewErr
+  else if nodupb sources then NewOk else NewPanic.
+
+(** requeuer Config.validate *)
+Definition requeuer_new (has_sub has_topic has_pub has_gen : bool) : ctor_res :=
+  if has_sub && has_topic && has_pub && has_gen then NewOk else NewErr.
 
 (** what a subscriber of the fan-out's internal GoChannel receives: message.Copy() *)
 Definition gochan_copy (m : msg) : msg := Msg (uuid m) (payload m) (Some (content (mmeta m))).
@@ -336,3 +352,14 @@ Section Run.
        | _, _ => false
        end.
 End Run.
+
+(** ** fan-out: what the subscribers of the internal GoChannel got, as an acceptor.
+    [got] = every copy any subscriber received for this message, with the topic it was
+    subscribed to; [seen] = settlement of the consumed message sampled inside GoChannel.Publish *)
+Definition fanout_monitor (src : N) (m : msg) (nsubs : nat) (closed : bool)
+           (got : list (N * msg)) (seen : list settle) (final : settle) : bool :=
+  Nat.eqb (length got) (if closed then 0%nat else nsubs)
+  && forallb (fun tm => (fst tm =? src) && (uuid (snd tm) =? uuid m) && (payload (snd tm) =? payload m)
+                        && meta_eqb (content (mmeta m)) (content (mmeta (snd tm)))) got
+  && forallb (fun s => settle_eqb s Unsettled) seen
+  && settle_eqb final (if closed then Nacked else Acked).
